@@ -321,7 +321,7 @@ def sameDecode (S : Schema) (m : Nat) (bytes : Bytes) (d : Dec) (inVal : List Va
       else pure (some s!"{what}: Lean decode ≠ Go decode at {(diffMsg S m "" (canonMsg lv) (canonMsg gv)).getD "?"}")
 
 def judgeEncode (S : Schema) (inp : Json) : Except String Verdict := do
-  if getStrD inp "stream" == "raw" then
+  if getStrD inp "stream" == "raw" || getStrD inp "stream" == "glue" then
     return { model := Json.mkObj [("variants", Json.arr #[])] }
   let name ← getStr inp "msg"
   let some m := findMsg S name | throw s!"unknown message {name}"
@@ -500,12 +500,71 @@ def judgeRaw (S : Schema) (inp obs : Json) : Except String Verdict := do
          cover := ["stream:raw", s!"raw:{cls}", "domain:excluded", s!"msg:{name}"],
          nontrivial := false, model := Json.mkObj [("lean_accepts", lean.isSome)] }
 
+/-- stream `glue`: the wazero host glue of api_host.pb.go driven with the mailbox module
+    (see harness/c12/glue.go). spec (on the observation): the call succeeds; request side —
+    the bytes that arrived inside the module have the length of `MarshalVT(value)` and decode
+    (proto.Unmarshal) to the value; response / host-function side — the message that comes
+    out of the wrapper / reaches the Log handler is the value. agree: the Lean decoder reads
+    the same bytes to the same value and they are its own encoding of it. -/
+def judgeGlue (S : Schema) (inp obs : Json) : Except String Verdict := do
+  let name ← getStr inp "msg"
+  let fn := getStrD inp "fn"
+  let side := getStrD inp "side"
+  let note := getStrD inp "note"
+  let some m := findMsg S name | throw s!"unknown message {name}"
+  let v ← parseMsg S m (← getObj inp "val")
+  let cv := canonMsg v
+  let ok := getBoolD obs "ok"
+  let err := getStrD obs "err"
+  let sentErr := getStrD obs "sent_err"
+  let sent ← unhex (getStrD obs "sent")
+  let got ← unhex (getStrD obs "got")
+  let dec ← getDec obs "dec"
+  let decOk := dec.ok && dec.equal && dec.same && dec.unknown == 0
+  let decWhy : String :=
+    if !dec.ok then s!"fails ({dec.err})"
+    else if dec.unknown != 0 then s!"carries {dec.unknown} unknown bytes"
+    else match parseMsg S m dec.dump with
+      | .ok gv => s!"≠ value at {(diffMsg S m "" cv (canonMsg gv)).getD "proto.Equal"}"
+      | .error _ => "is not proto.Equal to the value"
+  let mut fails : List String := []
+  if sentErr != "" then fails := fails ++ [s!"MarshalVT failed ({sentErr})"]
+  else if !ok then fails := fails ++ [s!"{fn}: {err}"]
+  else if side == "req" then
+    if got.length != sent.length then
+      fails := fails ++ [s!"{fn}: the module received {got.length} bytes, MarshalVT(request) has {sent.length}"]
+    if !decOk then fails := fails ++ [s!"{fn}: the request bytes inside the module: proto.Unmarshal {decWhy}"]
+  else if side == "resp" then
+    if !decOk then fails := fails ++ [s!"{fn}: the response returned by the wrapper {decWhy}"]
+  else
+    if getNatD obs "log_calls" != 1 then fails := fails ++ [s!"Log handler called {getNatD obs "log_calls"} times"]
+    if !decOk then fails := fails ++ [s!"the LogRequest handed to the Log handler {decWhy}"]
+  let mut dis : List String := []
+  if sentErr == "" then
+    let bytes := if side == "req" then got else sent
+    match decode S m bytes with
+    | some lv =>
+      if !msgBeq (canonMsg lv) cv then dis := dis ++ [s!"Lean decode of the transported bytes ≠ value at {(diffMsg S m "" (canonMsg lv) cv).getD "?"}"]
+      if encode S m lv != bytes then dis := dis ++ ["the transported bytes are not the Lean encoding of what they decode to"]
+    | none => if ok || side != "req" then dis := dis ++ ["Lean decode rejects the transported bytes"]
+  let sz := size S m cv
+  pure { agree := dis.isEmpty, spec := fails.isEmpty,
+         why := match fails, dis with
+           | w :: _, _ => s!"{name} [{note}]: {w}"
+           | [], w :: _ => s!"{name} [{note}]: {w}"
+           | [], [] => "",
+         sig := if fails.isEmpty then "" else s!"C12:glue:{side}:{fn}",
+         cover := ["stream:glue", s!"glue:{fn}:{side}", s!"msg:{name}", "domain:in",
+                   s!"size-class:{if sz = 0 then "0" else if sz < 128 then "<128" else if sz < 16384 then "<16K" else ">=16K"}"],
+         nontrivial := sz > 0, model := Json.mkObj [("size", sz)] }
+
 def judge (j : Json) : Except String Verdict := do
   let inp ← getObj j "in"
   if getStrD j "op" == "encode" then judgeEncode apiSchema inp
   else
     let obs ← getObj j "obs"
     if getStrD inp "stream" == "raw" then judgeRaw apiSchema inp obs
+    else if getStrD inp "stream" == "glue" then judgeGlue apiSchema inp obs
     else judgeCase apiSchema inp obs
 
 def main : IO UInt32 := runLines judge
